@@ -609,13 +609,18 @@ def check(run: core.Run) -> int:
     n_co, n_co_mix = (400, 120) if thorough else (16, 6)
     for i in range(n_co):
         co_cases.append(CO.gen_case(run.rng, len(cases) + len(co_cases), mixed=i >= n_co - n_co_mix))
+    # centroids that are detected but not labelled ("phantoms"): frames with more matched centroids than instance rows
+    n_ph, n_ph_mix = (300, 90) if thorough else (16, 5)
+    for i in range(n_ph):
+        co_cases.append(CO.gen_case(run.rng, len(cases) + len(co_cases), mixed=i >= n_ph - n_ph_mix, phantoms=True))
     co_dis, co_stats = CO.evaluate(run, co_cases, mods, PREAMBLE)
-    run.obligation("correspondence: Batch.run CGt (centroid_only_stream, Coq; fed with the one-by-one centroids) == real "
+    run.obligation("correspondence: Batch.run CGtM (centroid_only_stream, Coq; fed with the one-by-one centroids and each "
+                   "centroid's nearest labelled instance of its own frame; frames with more matches than instance rows included) == real "
                    "TopDownPredictor without a centered-instance model (CentroidCrop(return_crops=False) + "
                    "FindInstancePeaksGroundTruth) on every batch composition / order / batch size / max_instances: "
                    "indices, padded centroid rows, padded instance rows", co_dis == 0, f"{co_dis} cases disagree")
     for c in co_cases:
-        for k in ("kind", "refinement", "max_instances", "n_videos"):
+        for k in ("kind", "refinement", "max_instances", "n_videos") + (("family",) if "phantoms" in str(c.get("family")) else ()):
             key = f"{k}={c.get(k)}"
             dist[key] = dist.get(key, 0) + 1
     run.obligation("correspondence: Scale.srun (Coq, vm_compute: the batches assembled by _predict_generator, lists appended in "
